@@ -7,6 +7,7 @@ import (
 	"bytes"
 	"encoding/base64"
 	"encoding/binary"
+	"errors"
 	"fmt"
 	"io"
 	"iter"
@@ -115,6 +116,7 @@ func bytesOfTok(v uint64) []byte {
 
 func opName(n uint64) string { return fmt.Sprintf("op-%d", n) }
 func srName(n uint64) string { return fmt.Sprintf("sr-%d", n) }
+
 // the operator's DKV checkpoints file: the in-memory location answers a read of it with a document that
 // holds the checkpoint id named in the path (what the operator would have saved before acknowledging)
 func dkvURI(op, pl, cid uint64) string {
@@ -225,6 +227,8 @@ func (m *memLoc) Remove(paths ...string) error {
 	return nil
 }
 
+var errInjectedWrite = errors.New("injected write failure")
+
 // ---------- gate ----------
 
 type call struct {
@@ -232,22 +236,24 @@ type call struct {
 	paths   []string
 	ids     []uint64 // decoded snapshot ids of the paths
 	data    []byte
-	release chan bool // true: perform; false: store is dead, return without effect
+	release chan int // relPerform / relDead (store is dead: return without effect) / relFail (return an error)
 }
 
 // gate wraps a StorageLocation for ONE store generation. When gated, Write and Remove calls of snapshot files
 // park until the harness releases them; everything performed is logged.
 type gate struct {
-	inner    locations.StorageLocation
-	mu       sync.Mutex
-	gated    bool
-	loseRm   bool // Remove calls are observed but never reach the storage (the process dies before they land)
-	dead     bool
-	writes   []*call
-	removes  []*call
-	written  []*snapObs // performed snapshot writes, in order
-	removed  [][]uint64 // performed Remove calls (decoded ids), in order
-	spCopies []string   // destinations of job.savepoint copies
+	inner        locations.StorageLocation
+	mu           sync.Mutex
+	gated        bool
+	failNext     bool // ungated mode: the next Write of a snapshot file returns an error
+	failedWrites []uint64
+	loseRm       bool // Remove calls are observed but never reach the storage (the process dies before they land)
+	dead         bool
+	writes       []*call
+	removes      []*call
+	written      []*snapObs // performed snapshot writes, in order
+	removed      [][]uint64 // performed Remove calls (decoded ids), in order
+	spCopies     []string   // destinations of job.savepoint copies
 }
 
 func idsOfPaths(paths []string) []uint64 {
@@ -262,17 +268,28 @@ func idsOfPaths(paths []string) []uint64 {
 	return ids
 }
 
-func (g *gate) park(c *call) bool {
+const (
+	relDead = iota
+	relPerform
+	relFail
+)
+
+func (g *gate) park(c *call) int {
 	g.mu.Lock()
 	if g.dead {
 		g.mu.Unlock()
-		return false
+		return relDead
 	}
 	if !g.gated {
+		r := relPerform
+		if c.write && g.failNext {
+			g.failNext = false
+			r = relFail
+		}
 		g.mu.Unlock()
-		return true
+		return r
 	}
-	c.release = make(chan bool)
+	c.release = make(chan int)
 	if c.write {
 		g.writes = append(g.writes, c)
 	} else {
@@ -291,8 +308,14 @@ func (g *gate) Write(path string, r io.Reader) (string, error) {
 		return g.inner.Write(path, bytes.NewReader(data))
 	}
 	c := &call{write: true, paths: []string{path}, ids: idsOfPaths([]string{path}), data: data}
-	if !g.park(c) {
+	switch g.park(c) {
+	case relDead:
 		return path, nil // dead store: no effect on storage
+	case relFail:
+		g.mu.Lock()
+		g.failedWrites = append(g.failedWrites, c.ids[0])
+		g.mu.Unlock()
+		return "", errInjectedWrite
 	}
 	uri, err := g.inner.Write(path, bytes.NewReader(data))
 	if err == nil {
@@ -309,7 +332,7 @@ func (g *gate) Write(path string, r io.Reader) (string, error) {
 
 func (g *gate) Remove(paths ...string) error {
 	c := &call{paths: paths, ids: idsOfPaths(paths)}
-	if !g.park(c) {
+	if g.park(c) == relDead {
 		return nil
 	}
 	g.mu.Lock()
@@ -321,9 +344,9 @@ func (g *gate) Remove(paths ...string) error {
 	}
 	return g.inner.Remove(paths...)
 }
-func (g *gate) Read(path string) ([]byte, error)  { return g.inner.Read(path) }
-func (g *gate) List() iter.Seq2[string, error]    { return g.inner.List() }
-func (g *gate) URI(path string) (string, error)   { return g.inner.URI(path) }
+func (g *gate) Read(path string) ([]byte, error) { return g.inner.Read(path) }
+func (g *gate) List() iter.Seq2[string, error]   { return g.inner.List() }
+func (g *gate) URI(path string) (string, error)  { return g.inner.URI(path) }
 func (g *gate) Copy(src, dst string) error {
 	g.mu.Lock()
 	dead := g.dead
@@ -349,7 +372,7 @@ func (g *gate) parked(write bool) []*call {
 	}
 	return append([]*call(nil), g.removes...)
 }
-func (g *gate) releaseCall(c *call, perform bool) {
+func (g *gate) releaseCall(c *call, how int) {
 	g.mu.Lock()
 	lst := &g.removes
 	if c.write {
@@ -362,7 +385,7 @@ func (g *gate) releaseCall(c *call, perform bool) {
 		}
 	}
 	g.mu.Unlock()
-	c.release <- perform
+	c.release <- how
 }
 
 // kill marks the generation dead and lets every parked call return without effect.
@@ -373,7 +396,7 @@ func (g *gate) kill() {
 	g.writes, g.removes = nil, nil
 	g.mu.Unlock()
 	for _, c := range append(ws, rs...) {
-		c.release <- false
+		c.release <- relDead
 	}
 }
 
